@@ -692,7 +692,13 @@ def run_firmware_concrete(cpp: str, passes: int, inputs: Dict[str, float], extra
                     continue
                 kind, key, k = parts[1], parts[2], parts[3]
                 try:
-                    f.write(f"{kind} {int(key)} {int(k)} {float(val)!r}\n")
+                    # exact integers (64-bit clock values do not survive a round trip through a double)
+                    if isinstance(val, int) and not isinstance(val, bool):
+                        # 64-bit model values are reported signed: hand the machine word over as unsigned
+                        text = str(val if val >= 0 or kind not in ("millis", "micros", "millisgap") else val + (1 << 64))
+                    else:
+                        text = repr(float(val))
+                    f.write(f"{kind} {int(key)} {int(k)} {text}\n")
                 except ValueError:
                     continue
         env = dict(os.environ, VERIF_INPUTS=base + ".in")
